@@ -47,17 +47,41 @@ inductive Act
   | unknown                           -- an operation the model has no meaning for
   deriving DecidableEq, Repr
 
+/- The translator renders operands independently of local variable names: views of the message are
+`msg[lo:hi]`, a local is replaced by its defining expression (DH / KEM computation, slice of the
+message).  What the table below depends on are protocol constants, struct field paths and method
+names. -/
+
 def fieldOfAbsorb (arg : String) : Option FK :=
-  if arg ∈ ["b[:HeaderLen]", "x[:HeaderLen]", "header", "bufCopy[:HeaderLen]"] then some .hdr
-  else if arg ∈ ["hs.sessionID[:]", "sessionID", "x[:SessionIDLen]", "b[:SessionIDLen]"] then some .sid
-  else if arg ∈ ["b[:DHLen]", "x[:DHLen]", "ephemeral"] then some .dhEph
-  else if arg ∈ ["b[:KemKeyLen]", "x[:KemKeyLen]", "kemRemoteEphemeralBytes", "bufCopy[:KemKeyLen]"] then some .kemKey
-  else if arg ∈ ["cookie", "hs.cookie", "b[:PQCookieLen]"] then some .cookie
+  if arg = "msg[:HeaderLen]" then some .hdr
+  else if arg ∈ ["msg[:SessionIDLen]", "hs.sessionID[:]"] then some .sid
+  else if arg = "msg[:DHLen]" then some .dhEph
+  else if arg ∈ ["msg[:KemKeyLen]", "(*kemRemoteEphemeral).MarshalBinary()"] then some .kemKey
+  else if arg ∈ ["msg[:PQCookieLen]", "hs.cookie"] then some .cookie
   else none
 
 def isConstAbsorb (arg : String) : Bool :=
   arg ∈ ["[]byte(PostQuantumProtocolName)", "[]byte(PostQuantumHiddenProtocolName)", "[]byte{…}",
          "[]byte(\"client_to_server_key\")", "[]byte(\"server_to_client_key\")"]
+
+/-- decapsulation of the KEM ciphertext field of the message -/
+def isDecap (what : String) : Bool :=
+  what ∈ ["hs.kem.ephemeral.Decapsulate(msg[:KemCtLen])", "cert.KEMKeyPair.Decapsulate(msg[:KemCtLen])"]
+
+/-- a KEM shared secret (decapsulated, freshly encapsulated, or recovered from the cookie) -/
+def isKemSecret (arg : String) : Bool :=
+  isDecap arg || arg ∈ ["keys.Encapsulate(rand.Reader, &hs.kem.remoteEphemeral)",
+                        "keys.Encapsulate(rand.Reader, serverKEMPublicKey)", "*out.decryptCookie(msg)"]
+
+/-- DH of the two ephemerals -/
+def isEphDH (arg : String) : Bool :=
+  arg ∈ ["hs.dh.ephemeral.DH(hs.dh.remoteEphemeral[:])", "hs.dh.ephemeral.Agree(hs.dh.remoteEphemeral[:])"]
+
+/-- a DH in which a *certified static* key takes part: the peer's leaf key, or our own static key -/
+def isStaticDH (arg : String) : Bool :=
+  arg ∈ ["hs.dh.ephemeral.DH(leaf.PublicKey[:])", "hs.dh.static.Agree(leaf.PublicKey[:])",
+         "hs.dh.static.Agree(hs.dh.remoteEphemeral[:])", "c.Exchanger.Agree(hs.dh.remoteStatic[:])",
+         "c.Exchanger.Agree(hs.dh.remoteEphemeral[:])"]
 
 def classify : HOp → Act
   | .lenGuard _ a b => .guard a b
@@ -66,9 +90,9 @@ def classify : HOp → Act
     match fieldOfAbsorb arg with
     | some k => .absorbField k
     | none =>
-      if arg ∈ ["k", "ek", "*k"] then .absorbKem
-      else if arg = "dhEE" then .absorbEph
-      else if arg ∈ ["dhEs", "dhSe", "dhSs"] then .absorbStatic
+      if isKemSecret arg then .absorbKem
+      else if isEphDH arg then .absorbEph
+      else if isStaticDH arg then .absorbStatic
       else if isConstAbsorb arg then .skip
       else .unknown
   | .encrypt arg =>
@@ -77,15 +101,15 @@ def classify : HOp → Act
     else if arg = "timeBytes[:]" then .emitField .ts
     else .unknown
   | .decrypt arg _ =>
-    if arg ∈ ["encCerts", "encryptedCertificates"] then .decryptField .certs
-    else if arg = "b[:SNILen]" then .decryptField .sni
-    else if arg = "b[:TimestampLen]" then .decryptField .ts
+    if arg ∈ ["msg[:encCertsLen]", "msg[:encryptedCertLen]"] then .decryptField .certs
+    else if arg = "msg[:SNILen]" then .decryptField .sni
+    else if arg = "msg[:TimestampLen]" then .decryptField .ts
     else .unknown
   | .squeezeOut arg => if arg = "macBuf (not compared)" then .skip else .emitMac
   | .macCheck _ enforced => .mac enforced
   | .verifyCerts enforced => .verify enforced
   | .compute what enforced =>
-    if what ∈ ["hs.kem.ephemeral.Decapsulate(b[:KemCtLen])", "cert.KEMKeyPair.Decapsulate(bufCopy[:KemCtLen])"] then .decap
+    if isDecap what then .decap
     else if what = "ReplayPQDuplexFromCookie" then .cookie enforced
     else if what = "Encapsulate" then .emitKemCt
     else if what ∈ ["set certVerify = s.config.ClientVerify", "set certVerify = &c.config.Verify"] then .setVerify
